@@ -453,7 +453,7 @@ class Loop(Node):
             repetition_definition = self._repetition_definition * child.repetition_count
         else:
             # create a new expression that depends on both
-            expression = 'parent_repetition_count * child_repetition_count'
+            expression = 'Max(0, parent_repetition_count) * Max(0, child_repetition_count)'
             repetition_definition = VolatileRepetitionCount.operation(
                 expression=expression,
                 parent_repetition_count=self._repetition_definition,
